@@ -37,7 +37,11 @@ def _run(ctx, ncases, rec):
           eqs.append(f'<weld body1="{sp.bodies[-1]}" body2="{sp.bodies[0]}" solref="0.03 0.8" solimp="0.8 0.95 0.01 0.4 3"/>')
       hj = [j for j, t in sp.joint_types.items() if t in ("hinge", "slide")]
       if len(hj) >= 2:
-        eqs.append(f'<joint joint1="{hj[0]}" joint2="{hj[1]}" polycoef="0 0.5 0 0 0"/>')
+        # either order (joint2 may be the model's first joint, id 0), or a single-joint equality (no joint2)
+        ja, jb = (hj[0], hj[1]) if rng.random() < 0.5 else (hj[1], hj[0])
+        eqs.append(f'<joint joint1="{ja}" joint2="{jb}" polycoef="0 0.5 0 0 0"/>' if rng.random() < 0.7 else f'<joint joint1="{ja}" polycoef="0.1 0 0 0 0"/>')
+      elif len(hj) == 1 and rng.random() < 0.5:
+        eqs.append(f'<joint joint1="{hj[0]}" polycoef="0.1 0 0 0 0"/>')
       if eqs:
         extra = "<equality>" + "".join(eqs) + "</equality>"
       xml = models.wrap(wb, option=f'cone="{cone}" jacobian="{jac}" timestep="0.004"', extra=extra)
